@@ -569,7 +569,14 @@ impl<T: Transport + 'static> SyncEngine<T> {
                 .iter()
                 .any(|link| task.dest_path.starts_with(link))
             {
-                task.action = SyncAction::Create;
+                // (a link for which nothing is transferred — skip mode, or unfollowable in
+                // follow mode — stays skipped: that decision never looked at the destination)
+                let nothing_to_transfer = matches!(task.action, SyncAction::Skip)
+                    && self.symlink_mode != SymlinkMode::Preserve
+                    && task.source.as_ref().is_some_and(|f| f.is_symlink);
+                if !nothing_to_transfer {
+                    task.action = SyncAction::Create;
+                }
             } else if file.is_dir
                 && matches!(
                     self.transport.read_link(&task.dest_path).await,
